@@ -62,9 +62,14 @@ func derivesFromParam(outer, inner *ssa.Function, v ssa.Value, idx int) bool {
 	if isParamOrCaptured(outer, inner, v, idx) {
 		return true
 	}
-	// struct literal boxing: load of an Alloc whose field stores come from the param
+	// struct literal boxing: load of an Alloc (or the address of a fresh one: &box{err}) whose field stores come
+	// from the param
+	boxed := v
 	if ld, ok := v.(*ssa.UnOp); ok && ld.Op == token.MUL {
-		if al, ok := ld.X.(*ssa.Alloc); ok {
+		boxed = ld.X
+	}
+	{
+		if al, ok := boxed.(*ssa.Alloc); ok {
 			for _, r := range *al.Referrers() {
 				if fa, ok := r.(*ssa.FieldAddr); ok {
 					for _, r2 := range *fa.Referrers() {
@@ -249,6 +254,12 @@ func runC05(c *core.Ctx) {
 		good := false
 		core.AllInstrs(ia, func(in ssa.Instruction) {
 			if ret, ok := in.(*ssa.Return); ok && len(ret.Results) == 1 {
+				// atomic.Bool flag: !closed.Load()
+				if u, ok := ret.Results[0].(*ssa.UnOp); ok && u.Op == token.NOT {
+					if xi, ok := u.X.(ssa.Instruction); ok && e.closedLoad(xi) {
+						good = true
+					}
+				}
 				if b, ok := ret.Results[0].(*ssa.BinOp); ok && b.Op == token.EQL {
 					x, y := b.X, b.Y
 					if xi, ok := y.(ssa.Instruction); ok && e.closedLoad(xi) {
@@ -481,15 +492,23 @@ func (e *ev) isCtxDone(v ssa.Value) bool {
 // enclosing top-level function that creates/calls that closure.
 func liftToTopLevel(p *core.Prog, in ssa.Instruction, fn *ssa.Function) (ssa.Instruction, *ssa.Function) {
 	for d := 0; d < 6; d++ {
-		if fn.Parent() == nil && fn.Synthetic == "" {
+		if fn.Parent() == nil && fn.Synthetic == "" && core.EnclosingFunc(fn) == nil {
 			return in, fn
 		}
-		// find the MakeClosure (or direct call) of fn
+		// find the MakeClosure (or direct call) of fn; a method used only as one method value (or only deferred
+		// once) is the closure of that place
 		var found ssa.Instruction
 		var host *ssa.Function
 		for _, g := range p.Funcs {
 			core.AllInstrs(g, func(x ssa.Instruction) {
-				if mc, ok := x.(*ssa.MakeClosure); ok && mc.Fn == ssa.Value(fn) {
+				if mc, ok := x.(*ssa.MakeClosure); ok {
+					if mc.Fn == ssa.Value(fn) {
+						found, host = x, g
+					} else if w, ok := mc.Fn.(*ssa.Function); ok && fn.Parent() == nil && w.Synthetic != "" && unbound(w) == fn {
+						found, host = x, g
+					}
+				}
+				if df, ok := x.(*ssa.Defer); ok && fn.Parent() == nil && df.Call.StaticCallee() == fn {
 					found, host = x, g
 				}
 			})
@@ -512,8 +531,12 @@ func asyncBetween(p *core.Prog, e *ev, in ssa.Instruction, fn, top *ssa.Function
 		var host *ssa.Function
 		for _, g := range p.Funcs {
 			core.AllInstrs(g, func(x ssa.Instruction) {
-				if m, ok := x.(*ssa.MakeClosure); ok && m.Fn == ssa.Value(fn) {
-					mc, host = m, g
+				if m, ok := x.(*ssa.MakeClosure); ok {
+					if m.Fn == ssa.Value(fn) {
+						mc, host = m, g
+					} else if w, ok := m.Fn.(*ssa.Function); ok && fn.Parent() == nil && w.Synthetic != "" && unbound(w) == fn {
+						mc, host = m, g
+					}
 				}
 			})
 		}
